@@ -18,7 +18,7 @@
    witnesses at the end show that exactness against the per-name oracle fails beyond that. *)
 From Coq Require Import List ZArith String Bool Arith Lia Permutation.
 From C08 Require Import Model Spec.
-From C08 Require Proofs ProofsLate.
+From C08 Require Proofs ProofsLate ProofsProgram.
 Import ListNotations.
 Open Scope list_scope.
 
@@ -1162,6 +1162,103 @@ Proof. split; [apply Inv_init|]. split; [intros f; reflexivity|split; reflexivit
 Theorem history_refines : orph = true -> forall n ops, Forall2 osim (runS n sinit ops) (runM n minit ops).
 Proof. intros. apply history_refines_from; auto. apply HInv_init. Qed.
 
+(* ---- the consequences of Proofs.v / ProofsProgram.v over this invariant (states reached with fmakunbound) ------- *)
+Theorem reeval_stable : forall k n st ft en o e rS oS, Inv st -> Rel st ft ->
+  evalS n ft en o e = (rS, oS) -> comparable rS = true -> Proofs.iterM k n st en o e = repeat (rS, oS) k.
+Proof.
+  induction k as [|k IH]; simpl; intros n st ft en o e rS oS I R E C; auto.
+  pose proof (good_set_out st o) as [T0 I0].
+  destruct (evalM_sim ft n (set_out st o) en e rS oS (I0 I) (same_tabs_rel _ _ _ T0 R) E) as (rM & st' & EM & [S1 _]).
+  rewrite EM. destruct (S1 C) as [-> ->]. pose proof (evalM_good n _ _ _ _ _ EM) as [T1 I1].
+  f_equal. eapply IH; eauto. eapply same_tabs_rel; [exact T1|]. eapply same_tabs_rel; eauto.
+Qed.
+
+(* compile-then-evaluate = evaluate the list form (both are what S says) *)
+Theorem compile_transparent : forall n st ft en e rS oS, Inv st -> Rel st ft ->
+  evalS n ft en (out st) e = (rS, oS) -> comparable rS = true ->
+  (exists st1, evalM n st en e = (rS, st1) /\ out st1 = oS) /\
+  (exists st2, evalM n (compile_slot st e) en e = (rS, st2) /\ out st2 = oS).
+Proof.
+  intros n st ft en e rS oS I R E C. split.
+  - destruct (evalM_sim ft n st en e rS oS I R E) as (rM & st1 & EM & [S1 _]).
+    destruct (S1 C) as [-> O]. eauto.
+  - pose proof (compile_slot_cgood e st I) as CG.
+    destruct (cgood_rel _ _ ft (compile_slot_cgood e st) I R) as [I' R'].
+    rewrite <- (cg_out _ _ CG) in E.
+    destruct (evalM_sim ft n _ en e rS oS I' R' E) as (rM & st2 & EM & [S1 _]).
+    destruct (S1 C) as [-> O]. eauto.
+Qed.
+
+(* redefinition between evaluations is seen by code that was already evaluated (and so compiled in place) *)
+Theorem late_binding : forall n st ft en e g ps body clos r0 st0 rS oS, Inv st -> Rel st ft ->
+  evalM n st en e = (r0, st0) ->
+  evalS n ((g, (ps, body, clos)) :: ft) en (out st0) e = (rS, oS) -> comparable rS = true ->
+  exists st1, evalM n (defunM st0 g ps body clos) en e = (rS, st1) /\ out st1 = oS.
+Proof.
+  intros n st ft en e g ps body clos r0 st0 rS oS I R E0 E C.
+  pose proof (evalM_good n _ _ _ _ _ E0) as [T0 I0].
+  destruct (defunM_step st0 ft g ps body clos (I0 I) (same_tabs_rel _ _ _ T0 R)) as (I1 & R1 & O1).
+  rewrite <- O1 in E.
+  destruct (evalM_sim _ n _ en e rS oS I1 R1 E) as (rM & st1 & EM & [S1 _]).
+  destruct (S1 C) as [-> O]. eauto.
+Qed.
+
+(* a call compiled before its function exists (placeholder) passes its arguments once the function exists:
+   compile the form while g is unknown, define g, evaluate the compiled form = S with g's definition *)
+Theorem forward_reference : forall n st ft en e g ps body clos rS oS, Inv st -> Rel st ft ->
+  slookup g (funcs st) = None ->
+  evalS n ((g, (ps, body, clos)) :: ft) en (out st) e = (rS, oS) -> comparable rS = true ->
+  exists st2, evalM n (defunM (compile_slot st e) g ps body clos) en e = (rS, st2) /\ out st2 = oS.
+Proof.
+  intros n st ft en e g ps body clos rS oS I R F E C.
+  pose proof (compile_slot_cgood e st I) as CG.
+  destruct (cgood_rel _ _ ft (compile_slot_cgood e st) I R) as [I1 R1].
+  destruct (defunM_step _ ft g ps body clos I1 R1) as (I2 & R2 & O2).
+  rewrite <- (cg_out _ _ CG), <- O2 in E.
+  destruct (evalM_sim _ n _ en e rS oS I2 R2 E) as (rM & st2 & EM & [S1 _]).
+  destruct (S1 C) as [-> O]. eauto.
+Qed.
+
+Lemma defunsM_rel : forall ds st ft, Inv st -> Rel st ft ->
+  Inv (Proofs.defunsM st ds) /\ Rel (Proofs.defunsM st ds) (Proofs.deftab ds ft) /\ out (Proofs.defunsM st ds) = out st.
+Proof.
+  induction ds as [|[nm [[ps body] clos]] r IH]; simpl; intros st ft I R; auto.
+  destruct (defunM_step st ft nm ps body clos I R) as (I' & R' & O').
+  destruct (IH _ _ I' R') as (A & B & C). split; [auto|split; [auto|congruence]].
+Qed.
+Theorem order_independent_M : forall ds ds' st ft, Inv st -> Rel st ft ->
+  Permutation ds ds' -> NoDup (map fst ds) ->
+  forall n en e rS oS, evalS n (Proofs.deftab ds ft) en (out st) e = (rS, oS) -> comparable rS = true ->
+  exists st1 st2, evalM n (Proofs.defunsM st ds) en e = (rS, st1) /\ evalM n (Proofs.defunsM st ds') en e = (rS, st2) /\
+                  out st1 = oS /\ out st2 = oS.
+Proof.
+  intros ds ds' st ft I R P ND n en e rS oS E C.
+  destruct (defunsM_rel ds st ft I R) as (I1 & R1 & O1).
+  destruct (defunsM_rel ds' st ft I R) as (I2 & R2 & O2).
+  pose proof E as E'. rewrite (Proofs.order_independent_S ds ds' ft P ND) in E'.
+  rewrite <- O1 in E. rewrite <- O2 in E'.
+  destruct (evalM_sim _ n _ en e rS oS I1 R1 E) as (r1 & st1 & EM1 & [S1 _]).
+  destruct (evalM_sim _ n _ en e rS oS I2 R2 E') as (r2 & st2 & EM2 & [S2 _]).
+  destruct (S1 C) as [-> ?]. destruct (S2 C) as [-> ?]. eauto 10.
+Qed.
+Theorem program_meaning_M : orph = true -> forall n m s es es' ds ds' mains cid cid' cmp cmp' k k',
+  HInv m s -> ProofsProgram.defs_are es ds -> ProofsProgram.defs_are es' ds' -> Permutation ds ds' -> NoDup (map fst ds) ->
+  Forall ProofsProgram.plain mains -> mains <> [] ->
+  comparable (fst (ProofsProgram.meaning n ds mains (sft s) (sgv s))) = true ->
+  runM n m (ProofsProgram.prog cid es mains cmp k) = ProofsProgram.expected n ds mains s cmp k /\
+  runM n m (ProofsProgram.prog cid' es' mains cmp' k') = ProofsProgram.expected n ds mains s cmp' k'.
+Proof.
+  intros OR n m s es es' ds ds' mains cid cid' cmp cmp' k k' H D D' P ND PL NE C.
+  split.
+  - apply ProofsProgram.osim_all; [|apply ProofsProgram.expected_comparable; auto]. unfold ProofsProgram.expected.
+    rewrite <- (ProofsProgram.program_meaning_S n es mains ds D PL NE s cid cmp k).
+    apply history_refines_from; auto.
+  - apply ProofsProgram.osim_all; [|apply ProofsProgram.expected_comparable; auto]. unfold ProofsProgram.expected.
+    rewrite (ProofsProgram.program_order_S n ds ds' mains _ _ P ND).
+    rewrite <- (ProofsProgram.program_meaning_S n es' mains ds' D' PL NE s cid' cmp' k').
+    apply history_refines_from; auto.
+Qed.
+
 (* ---- exactness against the lookup-time evaluator (ProofsLate.v repeated over Inv with orph = false) ------------ *)
 Section Late.
 Hypothesis NO : orph = false.
@@ -1685,6 +1782,48 @@ Proof. exact (FM.defunM_step true). Qed.
 Lemma fmakM_step_fmak : forall st ft name, FM.Inv true st -> Proofs.Rel st ft ->
   FM.Inv true (fmakM st name) /\ Proofs.Rel (fmakM st name) (sremove name ft) /\ out (fmakM st name) = out st.
 Proof. exact (fun st ft name => FM.fmakM_step true st ft name (or_introl eq_refl)). Qed.
+Lemma reeval_stable_fmak : forall k n st ft en o e rS oS, FM.Inv true st -> Proofs.Rel st ft ->
+  evalS n ft en o e = (rS, oS) -> comparable rS = true -> Proofs.iterM k n st en o e = repeat (rS, oS) k.
+Proof. exact (FM.reeval_stable true). Qed.
+Lemma compile_transparent_fmak : forall n st ft en e rS oS, FM.Inv true st -> Proofs.Rel st ft ->
+  evalS n ft en (out st) e = (rS, oS) -> comparable rS = true ->
+  (exists st1, evalM n st en e = (rS, st1) /\ out st1 = oS) /\
+  (exists st2, evalM n (compile_slot st e) en e = (rS, st2) /\ out st2 = oS).
+Proof. exact (FM.compile_transparent true). Qed.
+Lemma late_binding_fmak : forall n st ft en e g ps body clos r0 st0 rS oS, FM.Inv true st -> Proofs.Rel st ft ->
+  evalM n st en e = (r0, st0) ->
+  evalS n ((g, (ps, body, clos)) :: ft) en (out st0) e = (rS, oS) -> comparable rS = true ->
+  exists st1, evalM n (defunM st0 g ps body clos) en e = (rS, st1) /\ out st1 = oS.
+Proof. exact (FM.late_binding true). Qed.
+Lemma forward_reference_fmak : forall n st ft en e g ps body clos rS oS, FM.Inv true st -> Proofs.Rel st ft ->
+  slookup g (funcs st) = None ->
+  evalS n ((g, (ps, body, clos)) :: ft) en (out st) e = (rS, oS) -> comparable rS = true ->
+  exists st2, evalM n (defunM (compile_slot st e) g ps body clos) en e = (rS, st2) /\ out st2 = oS.
+Proof. exact (FM.forward_reference true). Qed.
+Lemma order_independent_fmak : forall ds ds' st ft, FM.Inv true st -> Proofs.Rel st ft ->
+  Permutation ds ds' -> NoDup (map fst ds) ->
+  forall n en e rS oS, evalS n (Proofs.deftab ds ft) en (out st) e = (rS, oS) -> comparable rS = true ->
+  exists st1 st2, evalM n (Proofs.defunsM st ds) en e = (rS, st1) /\ evalM n (Proofs.defunsM st ds') en e = (rS, st2) /\
+                  out st1 = oS /\ out st2 = oS.
+Proof. exact (FM.order_independent_M true). Qed.
+Lemma program_meaning_fmak : forall n m s es es' ds ds' mains cid cid' cmp cmp' k k',
+  FM.HInv true m s -> ProofsProgram.defs_are es ds -> ProofsProgram.defs_are es' ds' -> Permutation ds ds' -> NoDup (map fst ds) ->
+  Forall ProofsProgram.plain mains -> mains <> [] ->
+  comparable (fst (ProofsProgram.meaning n ds mains (sft s) (sgv s))) = true ->
+  runM n m (ProofsProgram.prog cid es mains cmp k) = ProofsProgram.expected n ds mains s cmp k /\
+  runM n m (ProofsProgram.prog cid' es' mains cmp' k') = ProofsProgram.expected n ds mains s cmp' k'.
+Proof. exact (FM.program_meaning_M true eq_refl). Qed.
+(* the history invariant holds after EVERY history from the empty state (so the state-level and program-level
+   theorems apply after any prefix with fmakunbound) *)
+Lemma HInv_reachable : forall n ops m s, FM.HInv true m s ->
+  FM.HInv true (fold_left (fun m o => fst (stepM n m o)) ops m) (fold_left (fun s o => fst (stepS n s o)) ops s).
+Proof.
+  intros n. induction ops as [|o r IH]; simpl; intros m s H; [exact H|].
+  apply IH. apply (FM.step_sim true n m s o H). destruct o; simpl; auto.
+Qed.
+Lemma HInv_reachable_init : forall n ops,
+  FM.HInv true (fold_left (fun m o => fst (stepM n m o)) ops minit) (fold_left (fun s o => fst (stepS n s o)) ops sinit).
+Proof. intros. apply HInv_reachable. apply FM.HInv_init. Qed.
 
 (* exactness for the histories in which no name is fmakunbound while a slot holds a compiled call of it *)
 Theorem history_exact_fmak : forall n ops, fmak_clean n minit ops = true ->
